@@ -2,7 +2,8 @@
 import glob, json, os, shutil
 import vlib
 
-SIGN_WHAT = "the string formatter.FormatSignPayload returned (rebuilt as ucan.VerifySignature does) differs from the model's sign_payload (Signing.v / DagJson.v)"
+SIGN_WHAT = ("the message VerifySignature checks (formatter.FormatSignPayload on the payload rebuilt from the token, or the encodeSignaturePayload "
+             "error for a payload that is not signable) differs from the model's signing_input (Signing.v / DagJson.v)")
 JSON_WHAT = {
     "nodes": {1: "ipld.Encode(node, dagjson.Encode) differs from the model's json_encode (bytes, or success / failure)",
               2: "the harness's verdict 'all strings valid UTF-8 (utf8.ValidString), no reserved slash map' differs from the model's json_safe"},
@@ -33,16 +34,19 @@ def check(run):
     plain = True
     for d in stats.get("direct_violations") or []:
         if d.get("key"):
-            # a dag-json collision: a different token value with the same signed bytes still verifies
+            # a dag-json collision (a different token value with the same signed bytes still verifies), or Issue and VerifySignature
+            # disagreeing on whether a payload is signable
             key = d["key"]
+            if key != "json-integral-float":
+                plain = False
         else:
             plain = False
             key = "verifies-after-altering:" + d["alteration"] if "alteration" in d else "issued-token-does-not-verify"
             if "another principal" in d["what"]:
                 key = "verifies-for-other-principal"
         run.violation(key, "token %s (%s): %s" % (d["token"], d["label"], d["what"]), d)
-    run.obligation("oracle: every issued token verifies (fresh and after encode/decode), no altered token and no other principal verifies "
-                   "(dag-json collision alterations are reported under their own keys)", plain)
+    run.obligation("oracle: every issued token verifies (fresh and after encode/decode); a payload Issue refuses is refused by VerifySignature too; no altered "
+                   "token and no other principal verifies (the integral-float alteration is reported under its finding key)", plain)
     for u in (stats.get("issued_but_undecodable") or [])[:3]:
         run.violation("issued-token-undecodable", "the library cannot decode the root block of a token it issued (%s, caveat kinds %s)" % (u["label"], u["nb_kinds"]), u)
     for p in (jstats.get("go_problems") or [])[:3]:
@@ -74,7 +78,8 @@ def check(run):
                         2: "decoding the block with the model does not give the token back"}.get(code, str(code))
                 run.violation("token-bytes:" + str(code), "token %d: %s" % (tid, what), dict(token=tid, code=code, case_file=f))
     run.obligation("correspondence: Formats.token_bytes = root block bytes, token_decode inverts it, for every issued token", ok)
-    run.obligation("correspondence: Signing.sign_payload = the exact string FormatSignPayload returns for every issued token (and for the collision-altered ones)", sign_ok)
+    run.obligation("correspondence: Signing.signing_input = the exact string FormatSignPayload returns, or None exactly when encodeSignaturePayload errors "
+                   "(observed through Issue and VerifySignature), for every issued / refused token and for the collision-altered ones", sign_ok)
     run.obligation("correspondence: DagJson.json_encode / json_safe / cid_string / did_string / utf8_valid / base64 / base32 / base58 = dagjson.Encode, "
                    "Cid.String, DID.String, utf8.ValidString, encoding/base64, multibase on random and adversarial values", json_ok)
     if not (ok and sign_ok and json_ok) and not run.violations:
@@ -86,16 +91,17 @@ def check(run):
                    distinct_nontrivial=stats["option_masks_covered"] * 3 + len(stats["alteration_histogram"]),
                    rule="tokens issued through delegation.Delegate with every subset of {explicit expiration, no expiration, not-before, nonce, facts, "
                         "proofs} (all 64 masks, then random ones), 1..3 capabilities whose caveats and fact values are random IPLD values of all kinds "
-                        "(nested maps with keys of different lengths, lists, links, bytes, ints, unicode / arbitrary-byte strings; every third token has caveats "
-                        "with bytes, a link, an int and a string holding an invalid UTF-8 byte; every fifth a generic audience DID with an invalid UTF-8 byte), "
+                        "(nested maps with keys of different lengths, lists, links, bytes, ints, unicode strings; one token in four keeps arbitrary-byte strings; every third "
+                        "has caveats with bytes, a link, an int and sometimes a string holding an invalid UTF-8 byte; every fifth a generic audience DID with an invalid "
+                        "UTF-8 byte, one in 16 the undefined audience: payloads Issue refuses are signed without the guard and must be refused by VerifySignature), "
                         "Ed25519, RSA and wrapped issuers; for each: VerifySignature fresh and after re-decoding the root block, against every other principal, and after "
-                        "each of 20 single-field alterations plus the 5 dag-json collision alterations; the root block bytes compared with the model's layout; the "
+                        "each of 20 single-field alterations plus the 6 dag-json collision alterations; the root block bytes compared with the model's layout; the "
                         "string FormatSignPayload returns compared with sign_payload. JSON stream: random nodes (gen_cbor.randNode) and adversarial ones (keys '/', '', "
                         "control characters, U+2028/9, U+FFFD, every class of invalid UTF-8, int64 bounds, uint64 above int64, empty / 1000-byte bytes, reserved slash "
                         "shapes and near misses, CIDv0/v1 with 6 codecs and 7 hash codes, identity hashes) through dagjson.Encode; DID byte strings (key, generic, "
                         "invalid UTF-8, undecodable); byte strings through utf8 / base64 / base32 / base58. distinct = option masks x key kinds + alteration kinds",
                    samples=stats["samples"][:5], alteration_histogram=stats["alteration_histogram"],
-                   collision_histogram=stats.get("collision_histogram"), sign_cases=stats["sign_cases"],
+                   collision_histogram=stats.get("collision_histogram"), sign_cases=stats["sign_cases"], issue_refused=stats.get("issue_refused"),
                    option_masks_covered=stats["option_masks_covered"], verify_calls=stats["verify_calls"],
                    alterations_checked=stats["alterations_checked"],
                    json_stream=dict((k, jstats[k]) for k in ("nodes", "cids", "dids", "strs", "nodes_with_floats_skipped", "integral_floats_printing_like_the_int",
@@ -105,7 +111,8 @@ def check(run):
         run.notes.append("json_safe nodes that go-ipld-prime's dagjson.Decode does not read back: %s" % jstats.get("decode_samples"))
     run.assumptions += ["symbolic signatures: valid_sign / valid_unique (Ed25519 and RSA PKCS#1 v1.5 are deterministic and unforgeable)",
                         "the signed bytes are modelled byte for byte (dag-json, base64url, '.', DID and CID strings: DagJson.v, BaseEnc.v, JsonText.v) and compared with "
-                        "FormatSignPayload / dagjson.Encode / Cid.String / DID.String on every run; injectivity is PROVED on json_safe payloads and refuted outside",
+                        "FormatSignPayload / dagjson.Encode / Cid.String / DID.String on every run; injectivity is PROVED on json_safe payloads; Issue / VerifySignature refuse "
+                        "the others (checkSignable = Signing.signable, compared through the errors of Issue and VerifySignature)",
                         "floats are outside the Coq model (Ipld.v has no float constructor): the integral-float collision is detected dynamically only",
                         "go-ipld-prime's dag-cbor codec behaves as Cbor.v (checked by bin/check CBOR and by the byte comparison here)",
                         "top-level null caveats / fact values and unsigned integers above int64 are outside the token generator (the library cannot issue or re-read such "
